@@ -279,4 +279,75 @@ theorem Inv.live_nodup {bs s A} (h : Inv bs s A) : A.live.Nodup :=
   slotsOf_nodup _ h.lists_nodup (fun b hb =>
     (List.nodup_append.1 (h.ok b (h.block_of_live hb)).rings.nodup).1)
 
+/-! ### histories -/
+
+def Op.isAlloc {bs : Nat} : Op bs → Bool
+  | .alloc => true
+  | _ => false
+def Op.isFree {bs : Nat} : Op bs → Bool
+  | .free _ => true
+  | _ => false
+def Op.isFreeAll {bs : Nat} : Op bs → Bool
+  | .freeAll _ => true
+  | _ => false
+
+/-- number of `Alloc` calls in a history -/
+def allocs {bs : Nat} (ops : List (Op bs)) : Nat := ops.countP Op.isAlloc
+/-- number of `Free` calls in a history -/
+def frees {bs : Nat} (ops : List (Op bs)) : Nat := ops.countP Op.isFree
+
+theorem run_append {bs : Nat} : ∀ (ops1 ops2 : List (Op bs)) (s : State),
+    run bs s (ops1 ++ ops2) = (run bs s ops1).bind (run bs · ops2)
+  | [], _, _ => by simp [run]
+  | op :: ops1, ops2, s => by
+    simp only [List.cons_append, run]
+    cases step bs s op with
+    | none => simp
+    | some s1 => simp [run_append ops1 ops2 s1]
+
+theorem Reachable.step {bs : Nat} {s s' : State} (h : Reachable bs s) (op : Op bs)
+    (hs : step bs s op = some s') : Reachable bs s' := by
+  obtain ⟨ops, hr⟩ := h
+  exact ⟨ops ++ [op], by simp [run_append, hr, run, hs]⟩
+
+theorem run_count {bs : Nat} : ∀ (ops : List (Op bs)) (s s' : State) (A : Abs), Inv bs s A →
+    run bs s ops = some s' → (∀ op ∈ ops, op.isFreeAll = false) →
+    count bs s' + frees ops = count bs s + allocs ops
+  | [], s, s', A, _, hr, _ => by
+    simp only [run, Option.some.injEq] at hr; subst hr; simp [frees, allocs]
+  | op :: ops, s, s', A, h, hr, hno => by
+    simp only [run] at hr
+    cases hst : step bs s op with
+    | none => rw [hst] at hr; cases hr
+    | some s1 =>
+      rw [hst] at hr
+      obtain ⟨A1, h1⟩ := step_inv h op hst
+      have ih := run_count ops s1 s' A1 h1 hr (fun o ho => hno o (List.mem_cons_of_mem _ ho))
+      have hc : count bs s = A.live.length := by rw [count_eq_length, liveOf_eq h]
+      cases op with
+      | alloc =>
+        simp only [step, Option.some.injEq] at hst
+        obtain ⟨A', ha⟩ := alloc_spec h
+        have hc1 : count bs s1 = A.live.length + 1 := by
+          rw [← hst, count_eq_length, liveOf_eq ha.inv, ha.live.length_eq]; simp
+        simp only [frees, allocs, List.countP_cons, Op.isFree, Op.isAlloc] at ih ⊢
+        simp at ih ⊢; omega
+      | free p =>
+        simp only [step] at hst
+        split at hst
+        · rename_i hp
+          simp only [Option.some.injEq] at hst
+          rw [liveOf_eq h] at hp
+          obtain ⟨A', hf⟩ := free_spec h hp
+          have hc1 : count bs s1 + 1 = A.live.length := by
+            rw [← hst, count_eq_length, liveOf_eq hf.inv, hf.live.length_eq, List.length_erase_of_mem hp]
+            have : 0 < A.live.length := List.length_pos_of_mem hp
+            omega
+          simp only [frees, allocs, List.countP_cons, Op.isFree, Op.isAlloc] at ih ⊢
+          simp at ih ⊢; omega
+        · cases hst
+      | freeAll d =>
+        have := hno (.freeAll d) (by simp)
+        simp [Op.isFreeAll] at this
+
 end Morfuse.BlockAlloc
